@@ -170,7 +170,10 @@ structure Cfg where
       2 `mw` `Use("/u/:tenant", front)`; 3 `rr` the same, `front` calls RestartRouting on its first
       visit; 4 `po` `Use` of the endpoint's pattern with `:tenant` for `:name`, `front` overrides the
       path (name ↦ "ovr" ++ name) before `Next()`. (Patterns are not spelled out here: they contain the
-      comment opener.) -/
+      comment opener.)
+      No endpoint reached, the accessors run in a custom ErrorHandler without a matched route:
+      5 `nf` nothing matches (404); 6 `na` the path is registered for another method only (405);
+      7 `uo` only the `Use` middleware of `mw` matches, probes, and `Next()` fails. -/
   chain : Nat := 0
   deriving Repr
 
@@ -367,7 +370,8 @@ def Req.endName (c : Cfg) (q : Req) : Bytes := if c.chain == 4 then b "ovr" ++ q
 /-- ctx.go `Params` in the handler at `stage` (0 = endpoint, parameters name and star; 1 = the handler
     in front: the same route for `hh`, parameter tenant only for `mw`/`rr`, tenant and star for `po`) -/
 def Req.param (c : Cfg) (stage : Nat) (q : Req) (k : Bytes) : Bytes :=
-  if stage == 0 then paramOf c (b "name") true (q.endName c) q.rest k
+  if stage == 0 && (c.chain == 5 || c.chain == 6) then []     -- no route: Route() is the fallback, no Params
+  else if stage == 0 then paramOf c (b "name") true (q.endName c) q.rest k
   else if c.chain == 1 then paramOf c (b "name") true q.name q.rest k
   else paramOf c (b "tenant") (c.chain == 4) q.name q.rest k
 
@@ -377,7 +381,8 @@ def Req.pathAt (c : Cfg) (stage : Nat) (q : Req) : Bytes :=
 
 /-- `Bind().URI` into a map at `stage`: the route's parameters in key order -/
 def Req.uriMap (c : Cfg) (stage : Nat) (q : Req) : List Bytes :=
-  if stage == 0 then [b "*1", q.rest, b "name", q.endName c, []]
+  if stage == 0 && (c.chain == 5 || c.chain == 6) then [[]]
+  else if stage == 0 then [b "*1", q.rest, b "name", q.endName c, []]
   else if c.chain == 1 then [b "*1", q.rest, b "name", q.name, []]
   else if c.chain == 4 then [b "*1", q.rest, b "tenant", q.name, []]
   else [b "tenant", q.name, []]
@@ -395,7 +400,7 @@ def Req.method (q : Req) : Bytes := if q.bkind == 'n' then b "GET" else b "POST"
 /-- response headers the harness' handler has set before it calls the accessors -/
 def Req.respHeader (c : Cfg) (stage : Nat) (q : Req) (k : Bytes) : Option Bytes :=
   let k' := toLower k
-  if k' == b "x-resp" then some (b "r-" ++ (if stage == 0 then q.endName c else q.name))
+  if k' == b "x-resp" then some (b "r-" ++ (if stage == 0 then (if c.chain ≥ 5 then [] else q.endName c) else q.name))
   else if k' == b "x-echo" then some (q.header (b "X-Custom-A"))
   else if k' == b "content-type" then some (b "text/plain; charset=utf-8")   -- fasthttp's default
   else none
@@ -411,7 +416,9 @@ def sem (c : Cfg) (q : Req) (meth : String) (key : Bytes) : Option (List Bytes) 
   let meth := if meth.startsWith "Pre." then (meth.drop 4).toString else meth
   let meth := if meth.startsWith "Req." then (meth.drop 4).toString else meth
   match meth with
-  | "Params" | "Params[string]" | "Params[[]byte]" => some [q.param c stage key]
+  | "Params" | "Params[string]" | "Params[[]byte]" =>
+    -- `uo`: whether the error handler still sees the middleware's route is not transcribed
+    if stage == 0 && c.chain == 7 then none else some [q.param c stage key]
   | "Path" => some [q.pathAt c stage]
   | "OriginalURL" => some [q.uri]
   | "Protocol" => some [if q.proto == 1 then b "HTTP/1.0" else b "HTTP/1.1"]
@@ -437,7 +444,12 @@ def sem (c : Cfg) (q : Req) (meth : String) (key : Bytes) : Option (List Bytes) 
   | "Body" => if q.bkind == 'm' then none else q.decodedBody.map fun d => [d]
   | "FormValue" => some [q.formValue key]
   | "GetRespHeader" | "Res.Get" => (q.respHeader c stage key).map fun v => [v]
-  | "Route" => if stage == 1 && c.chain != 1 then none else some [q.method, [], b "/u/:name/-/*", b "name", b "*1"]
+  | "Route" =>
+    if stage == 1 && c.chain != 1 then none
+    else if stage == 0 && c.chain == 7 then none
+    -- ctx.go `Route` without a matched route: `&Route{Path: c.pathOriginal, Method: c.Method(), …}`
+    else if stage == 0 && (c.chain == 5 || c.chain == 6) then some [q.method, [], q.path]
+    else some [q.method, [], b "/u/:name/-/*", b "name", b "*1"]
   | "Bind.Query:map" => some (flatMapLast (bindData c.split true q.query) ++ [[]])
   | "Bind.Query:mapslice" => some (flatMapAll (bindData c.split true q.query) ++ [[]])
   | "Bind.Cookie:map" => some (flatMapLast (bindData c.split false q.cookies) ++ [[]])
@@ -448,8 +460,7 @@ def sem (c : Cfg) (q : Req) (meth : String) (key : Bytes) : Option (List Bytes) 
     if q.bkind == 'f' || q.bkind == 'm' then some (flatMapLast (bindData c.split true q.formArgs) ++ [[]]) else none
   | "Bind.Body:mapslice" =>
     if q.bkind == 'f' || q.bkind == 'm' then some (flatMapAll (bindData c.split true q.formArgs) ++ [[]]) else none
-  | "Bind.URI:map" => some (q.uriMap c stage)
-  | "Bind.URI:mapslice" => some (q.uriMap c stage)
+  | "Bind.URI:map" | "Bind.URI:mapslice" => if stage == 0 && c.chain == 7 then none else some (q.uriMap c stage)
   | _ => none
 
 end C06
